@@ -143,6 +143,10 @@ def anchor_universe() -> dict:
     types.append(td("PadOnly", [{"k": "void", "bits": 16}, {"k": "void", "bits": 3}]))
     types.append(td("PadOnlyD", [{"k": "void", "bits": 7}, {"k": "void", "bits": 64}], sealed=False, extent_bits=128))
     types.append(td("TailPad", [fld("x", prim("uint", 8)), fld("p", ref("PadOnly")), fld("y", prim("uint", 8)), fld("ps", {"t": "farr", "elem": ref("PadOnly"), "n": 2}), fld("d", ref("PadOnlyD")), fld("z", prim("uint", 8))]))
+    # offsets with the same minimum and maximum, one a set of whole bytes, the other not (the aligned one is generated first):
+    # whether the members behind them may be accessed with the byte-aligned primitives differs
+    types.append(td("AlignedFirst", [fld("v", {"t": "varr", "elem": prim("uint", 8), "cap": 2, "incl": True}), fld("x", prim("uint", 24)), fld("f", prim("float", 32)), fld("a", {"t": "farr", "elem": prim("uint", 16), "n": 2})]))
+    types.append(td("AlignedSecond", [fld("v", {"t": "varr", "elem": {"t": "bool"}, "cap": 16, "incl": True}), fld("x", prim("uint", 24)), fld("f", prim("float", 32)), fld("a", {"t": "farr", "elem": prim("uint", 16), "n": 2})]))
     types.append(td("Nil", []))
     types.append(td("NilD", [], sealed=False, extent_bits=0))
     types.append(td("TailNil", [fld("x", prim("uint", 8)), fld("e", ref("Nil"))]))
